@@ -159,7 +159,7 @@ FMT_ALPHABET = [("lit", lambda tag: Adt("FormatElement", "Literal", [StringV([or
                 ("depth", lambda tag: Adt("FormatElement", "Field", [Adt("FormatField", "Depth")]), "(field Depth)", True),
                 ("selinux", lambda tag: Adt("FormatElement", "Field", [Adt("FormatField", "SecurityContext")]), "(field SecurityContext)", True),
                 ("nl", lambda tag: Adt("FormatElement", "Special", [Adt("FormatSpecial", "Newline")]), "(special Newline)", False),
-                ("clear", lambda tag: Adt("FormatElement", "Special", [Adt("FormatSpecial", "Clear")]), "(special Clear)", False)]
+                ("clear", lambda tag: Adt("FormatElement", "Special", [Adt("FormatSpecial", "Clear")]), "(special Clear)", True)]
 
 
 def format_level(B, rep, tier, samples):
